@@ -406,16 +406,60 @@ theorem replaceS_some {s : St} (h : Inv s) {v wn tmp : Nat} (hv : v < s.n) (hwn 
       simp only [hdv, hdr, content_eq S.inv, h3, h4, h5, Option.bind_some, Option.pure_def]
       exact ⟨_, rfl⟩
 
+/-! ### the calls that return a String by value -/
+
+theorem plusS_some {s : St} (h : Inv s) {v t0 t1 : Nat} (h0n : t0 < s.n) (h1n : t1 < s.n) (a b : Nat) :
+    ∃ s', plusS s v a b t0 t1 = some s' := by
+  obtain ⟨s1, e1⟩ := ctorCopy_some h t0 a
+  have E1 := eff_ctorCopy h h0n e1
+  obtain ⟨s2, e2⟩ := appendS_some E1.inv (v := t0) (by rw [E1.n]; exact h0n) b
+  have E2 := eff_appendS E1.inv (by rw [E1.n]; exact h0n) e2
+  obtain ⟨s3, e3⟩ := ctorCopy_some E2.inv t1 t0
+  have E3 := eff_ctorCopy E2.inv (v := t1) (by rw [E2.n, E1.n]; exact h1n) e3
+  have E4 := eff_setEmpty E3.inv (v := t0) (by rw [E3.n, E2.n, E1.n]; exact h0n)
+  obtain ⟨s5, e5⟩ := assign_some E4.inv v t1
+  simp only [plusS, e1, e2, e3, e5, Option.bind_eq_bind, Option.bind_some, Option.pure_def]
+  exact ⟨_, rfl⟩
+
+theorem plusLit_some {s : St} (h : Inv s) {v t0 t1 t2 : Nat} (h0n : t0 < s.n) (h1n : t1 < s.n) (h2n : t2 < s.n)
+    (a : Nat) {r len : Nat} (hr : len < (s.regs r).length) : ∃ s', plusLit s v a r len t0 t1 t2 = some s' := by
+  have E0 := eff_attach h h2n (r := r) (off := 0) (len := len) (by omega)
+  obtain ⟨s1, e1⟩ := plusS_some E0.inv (v := v) (t0 := t0) (t1 := t1) (by rw [E0.n]; exact h0n) (by rw [E0.n]; exact h1n) a t2
+  simp only [plusLit, e1, Option.bind_eq_bind, Option.bind_some, Option.pure_def]
+  exact ⟨_, rfl⟩
+
+theorem fromFmt_some {s : St} (h : Inv s) {tmp : Nat} (ht : tmp < s.n) (v : Nat) (f : List Fmt) :
+    ∃ s', fromFmt s v f tmp = some s' := by
+  obtain ⟨⟨s1, r⟩, h1⟩ := printf_some h ht f
+  have E1 := eff_printf h ht h1
+  obtain ⟨s2, h2⟩ := assign_some E1.inv v tmp
+  simp only [fromFmt, h1, h2, Option.bind_eq_bind, Option.bind_some, Option.pure_def]
+  exact ⟨_, rfl⟩
+
+theorem fromPrintf_some {s : St} (h : Inv s) {tmp : Nat} (ht : tmp < s.n) (v : Nat) (f : List Fmt) :
+    ∃ s', fromPrintf s v f tmp = some s' := by
+  obtain ⟨s0, h0⟩ := ctorCap_some s tmp Generated.fromPrintfBuf
+  have E0 := eff_ctorCap h ht h0
+  have ht0 : tmp < s0.n := by rw [E0.n]; exact ht
+  obtain ⟨⟨s1, r⟩, h1⟩ := printfTail_some E0.inv ht0 (excl_ctorCap h0) (render f)
+  have E1 := (eff_printfTail E0.inv ht0 (excl_ctorCap h0) h1).1
+  obtain ⟨s2, h2⟩ := assign_some E1.inv v tmp
+  simp only [fromPrintf, h0, h1, h2, Option.bind_eq_bind, Option.bind_some, Option.pure_def]
+  exact ⟨_, rfl⟩
+
 /-- what every call requires of its arguments: the variables exist; `attach` gets a range with one
     readable byte behind it; the copy constructor builds a *new* object from another one -/
 def ValidArgs (s : St) : Op → Prop
   | .ctorEmpty v | .ctorPtr v _ | .ctorFill v _ _ | .ctorCap v _ | .clear v | .detach v | .cview v | .resize v _
   | .reserve v _ | .fillFrom v _ _ | .appendP v _ | .appendC v _ | .prependP v _ | .replaceC v _ _ | .lower v
-  | .upper v | .trim v _ | .join v _ _ | .replaceL v _ _ | .printf v _ => validVar s v = true
+  | .upper v | .trim v _ | .join v _ _ | .replaceL v _ _ | .printf v _ | .plusEqC v _ | .fromCStr v _ | .fromCStrN v _
+  | .fromBool v _ | .fromD v _ | .fromU v _ | .fromPrintf v _ => validVar s v = true
   | .attach v r off len => validVar s v = true ∧ off + len < (s.regs r).length
   | .ctorCopy v w => validVar s v = true ∧ validVar s w = true ∧ v ≠ w
-  | .assign v w | .appendS v w | .prependS v w | .substr v w _ _ | .tokenC v w _ _ | .tokenS v w _ _ =>
+  | .assign v w | .appendS v w | .prependS v w | .substr v w _ _ | .tokenC v w _ _ | .tokenS v w _ _ | .plusEqS v w =>
     validVar s v = true ∧ validVar s w = true
+  | .plus v a b => validVar s v = true ∧ validVar s a = true ∧ validVar s b = true
+  | .plusLit v a r len => validVar s v = true ∧ validVar s a = true ∧ len < (s.regs r).length
   | .replaceS v wn wr_ => validVar s v = true ∧ validVar s wn = true ∧ validVar s wr_ = true
 
 theorem step_total_all {s : St} (g : Good s) {op : Op} (va : ValidArgs s op)
@@ -537,6 +581,37 @@ theorem step_total_all {s : St} (g : Good s) {op : Op} (va : ValidArgs s op)
     simp only [step, va, if_true]
     obtain ⟨r, hr⟩ := printf_some h V.1 f
     simp only [hr, Option.map_some]; exact ⟨_, rfl⟩
+  | plusEqS v w =>
+    simp only [ValidArgs] at va; have V := valid_facts va.1
+    simp only [step, va, and_self, if_true]; exact appendS_some h V.1 w
+  | plusEqC v c =>
+    simp only [ValidArgs] at va; have V := valid_facts va
+    simp only [step, va, if_true]; exact appendP_some h V.1 _
+  | plus v a b =>
+    simp only [ValidArgs] at va; have V := valid_facts va.1
+    simp only [step, va, and_self, if_true]; exact plusS_some h V.2.2.2.2.1 V.2.2.2.2.2.1 a b
+  | plusLit v a r len =>
+    simp only [ValidArgs] at va; have V := valid_facts va.1
+    simp only [step, va, and_self, if_true]
+    exact plusLit_some h V.2.2.2.2.1 V.2.2.2.2.2.1 V.2.2.2.2.2.2 a va.2.2
+  | fromCStr v src =>
+    simp only [ValidArgs] at va; have V := valid_facts va
+    simp only [step, va, if_true]; exact assignTemp_some h V.2.2.2.2.1 v _
+  | fromCStrN v src =>
+    simp only [ValidArgs] at va; have V := valid_facts va
+    simp only [step, va, if_true]; exact assignTemp_some h V.2.2.2.2.1 v _
+  | fromBool v b =>
+    simp only [ValidArgs] at va
+    simp only [step, va, if_true]; exact ctorPtr_some s v _
+  | fromD v x =>
+    simp only [ValidArgs] at va; have V := valid_facts va
+    simp only [step, va, if_true]; exact fromFmt_some h V.2.2.2.2.1 v _
+  | fromU v x =>
+    simp only [ValidArgs] at va; have V := valid_facts va
+    simp only [step, va, if_true]; exact fromFmt_some h V.2.2.2.2.1 v _
+  | fromPrintf v f =>
+    simp only [ValidArgs] at va; have V := valid_facts va
+    simp only [step, va, if_true]; exact fromPrintf_some h V.2.2.2.2.1 v f
 
 /-! ### the invariant along histories -/
 
